@@ -169,6 +169,31 @@ impl Spec {
     }
 }
 
+thread_local! {
+    /// model edges (hash of (state, action)) taken while replaying REAL executions; None = not recording
+    static COV: std::cell::RefCell<Option<HashSet<u64>>> = const { std::cell::RefCell::new(None) };
+}
+/// Start recording which model transitions the replayed real executions take (calling thread only).
+pub fn cov_begin() { COV.with(|c| *c.borrow_mut() = Some(HashSet::new())); }
+/// Stop recording; returns the number of distinct model transitions realised by real executions.
+pub fn cov_end() -> u64 { COV.with(|c| c.borrow_mut().take().map_or(0, |h| h.len() as u64)) }
+
+impl Spec {
+    fn step_cov(&self, s: &State, a: Act) -> Result<State, String> {
+        COV.with(|c| {
+            if let Some(h) = c.borrow_mut().as_mut() {
+                use std::hash::{Hash, Hasher};
+                let mut hs = std::collections::hash_map::DefaultHasher::new();
+                s.hash(&mut hs);
+                a.hash(&mut hs);
+                h.insert(hs.finish());
+            }
+        });
+        self.step(s, a)
+    }
+}
+
+
 pub struct Explored {
     pub states: u64,
     pub transitions: u64,
@@ -276,7 +301,7 @@ pub fn replay(spec: &Spec, events: &[Ev], completed: bool) -> Result<u64, String
                 W::Seg(_) => Act::FinishContig(i),
                 _ => return Err(format!("worker {i} is in state {:?}, cannot reach the state the event needs", s.w[i])),
             };
-            *s = spec.step(s, a)?;
+            *s = spec.step_cov(s, a)?;
             *steps += 1;
         }
         Err(format!("worker {i} did not settle"))
@@ -289,7 +314,7 @@ pub fn replay(spec: &Spec, events: &[Ev], completed: bool) -> Result<u64, String
                     if !spec.enabled(s).contains(&Act::Producer) {
                         return Err(format!("producer moved past {:?} although the model does not enable it (queue {} items, workers {:?})", spec.script[s.pc], s.queue.len(), s.w));
                     }
-                    *s = spec.step(s, Act::Producer)?;
+                    *s = spec.step_cov(s, Act::Producer)?;
                     *steps += 1;
                 }
                 _ => return Ok(()),
@@ -307,7 +332,7 @@ pub fn replay(spec: &Spec, events: &[Ev], completed: bool) -> Result<u64, String
                         other => return Err(fail(format!("model expects {:?}", other))),
                     }
                     if !spec.enabled(&s).contains(&Act::Producer) { return Err(fail("push admitted but blocked in the model".into())); }
-                    s = spec.step(&s, Act::Producer).map_err(&fail)?;
+                    s = spec.step_cov(&s, Act::Producer).map_err(&fail)?;
                     steps += 1;
                     if s.bytes as i64 != e.b { return Err(fail(format!("bytes queued {} in model", s.bytes))); }
                 }
@@ -318,7 +343,7 @@ pub fn replay(spec: &Spec, events: &[Ev], completed: bool) -> Result<u64, String
                 "q.closed" => {
                     settle_producer(spec, &mut s, &mut steps, true).map_err(&fail)?;
                     if spec.script.get(s.pc) != Some(&POp::Close) { return Err(fail(format!("model expects {:?}", spec.script.get(s.pc)))); }
-                    s = spec.step(&s, Act::Producer).map_err(&fail)?;
+                    s = spec.step_cov(&s, Act::Producer).map_err(&fail)?;
                     steps += 1;
                 }
                 "q.refuse" => return Err(fail("producer push refused".into())),
@@ -333,7 +358,7 @@ pub fn replay(spec: &Spec, events: &[Ev], completed: bool) -> Result<u64, String
                 settle(spec, &mut s, i, &mut steps, &|w| *w == W::Idle).map_err(&fail)?;
                 let top = s.queue.last().cloned().ok_or_else(|| fail("take from an empty model queue".into()))?;
                 if top.size as i64 != e.a { return Err(fail(format!("model would hand out an item of size {} (prio {}, token {})", top.size, top.prio, top.token))); }
-                s = spec.step(&s, Act::Pull(i)).map_err(&fail)?;
+                s = spec.step_cov(&s, Act::Pull(i)).map_err(&fail)?;
                 steps += 1;
                 if s.bytes as i64 != e.b { return Err(fail(format!("bytes queued {} in model", s.bytes))); }
             }
@@ -344,19 +369,19 @@ pub fn replay(spec: &Spec, events: &[Ev], completed: bool) -> Result<u64, String
             "q.end" => {
                 settle(spec, &mut s, i, &mut steps, &|w| *w == W::Idle).map_err(&fail)?;
                 if !(s.queue.is_empty() && s.closed) { return Err(fail("end-of-stream while the model queue is open or non-empty".into())); }
-                s = spec.step(&s, Act::Pull(i)).map_err(&fail)?;
+                s = spec.step_cov(&s, Act::Pull(i)).map_err(&fail)?;
                 steps += 1;
             }
             "w.token" => if !matches!(s.w[i], W::Arrive(1)) { return Err(fail(format!("token handling starts in model state {:?}", s.w[i]))); },
             "w.raw_pushed" => {
                 if !matches!(s.w[i], W::Seg(_)) { return Err(fail(format!("raw push in model state {:?}", s.w[i]))); }
-                s = spec.step(&s, Act::FinishContig(i)).map_err(&fail)?;
+                s = spec.step_cov(&s, Act::FinishContig(i)).map_err(&fail)?;
                 steps += 1;
             }
             "w.barrier" => {
                 let k = e.a as u8;
                 settle(spec, &mut s, i, &mut steps, &|w| *w == W::Arrive(k)).map_err(&fail)?;
-                s = spec.step(&s, Act::ArriveBarrier(i)).map_err(&fail)?;
+                s = spec.step_cov(&s, Act::ArriveBarrier(i)).map_err(&fail)?;
                 steps += 1;
             }
             "w.exit" => if s.w[i] != W::Exited { return Err(fail(format!("worker exits in model state {:?}", s.w[i]))); },
@@ -367,7 +392,7 @@ pub fn replay(spec: &Spec, events: &[Ev], completed: bool) -> Result<u64, String
         // let the remaining unlogged steps run (barrier leaves, join)
         for _ in 0..(8 * spec.n + 8) {
             let acts = spec.enabled(&s);
-            match acts.first() { Some(&a) => { s = spec.step(&s, a)?; steps += 1; } None => break }
+            match acts.first() { Some(&a) => { s = spec.step_cov(&s, a)?; steps += 1; } None => break }
         }
         if !spec.is_final(&s) {
             return Err(format!("the real execution completed but the model ends in a non-final state: pc {}/{} workers {:?} queue {} raw {:?} batched {}", s.pc, spec.script.len(), s.w, s.queue.len(), s.raw, s.batched));
